@@ -211,8 +211,11 @@ func init() {
 		}})
 }
 
-var c10Names = []string{"report.txt", "with space.txt", "ümlaut.pdf", "a;b=c.txt", "日本語.txt", "semi;colon.bin", "equals=sign.dat", "plain", "dots.in.name.tar.gz", "paren(1).txt", "comma,name.txt", "quote'single.txt"}
-var c10Subjects = []string{"Hello", "Grüße aus Köln", "日本語の件名", "a very long subject that needs to be folded because it exceeds the line length limit by quite a bit really", "tab\there", "emoji 😀 subject", "trailing space ", "  double  space"}
+var c10Names = []string{"report.txt", "with space.txt", "ümlaut.pdf", "a;b=c.txt", "日本語.txt", "semi;colon.bin", "equals=sign.dat", "plain", "dots.in.name.tar.gz", "paren(1).txt", "comma,name.txt", "quote'single.txt",
+	"Квартальный отчёт за 2024 год.pdf", "Übersichtsgrafik der Jahresabschlussprüfung für Österreich.png", "非常に長い日本語のファイル名の例ですよ、もっと長く.txt",
+	"a long, mostly ASCII file name with one ümlaut that needs more than one encoded-word.txt", "short ü.txt"}
+var c10Subjects = []string{"Hello", "Ein sehr langer Betreff mit Umlauten äöü, der ganz sicher mehr als ein encoded-word braucht, weil er so lang ist",
+	"長い件名長い件名長い件名長い件名長い件名長い件名長い件名長い件名", "Grüße aus Köln", "日本語の件名", "a very long subject that needs to be folded because it exceeds the line length limit by quite a bit really", "tab\there", "emoji 😀 subject", "trailing space ", "  double  space"}
 
 func roundtripCase(c *Ctx) {
 	r := c.Rng
@@ -222,7 +225,8 @@ func roundtripCase(c *Ctx) {
 	}
 	subject := c10Subjects[r.Intn(len(c10Subjects))]
 	spc.Gen = []GenOp{{Key: "Subject", Values: []string{subject}}}
-	spc.Addr = []AddrOp{{Kind: 0, Mode: "set", Values: []string{[]string{"alice@example.com", "Jürgen Müller <jm@example.de>", "\"Last, First\" <lf@example.net>"}[r.Intn(3)]}},
+	spc.Addr = []AddrOp{{Kind: 0, Mode: "set", Values: []string{[]string{"alice@example.com", "Jürgen Müller <jm@example.de>", "\"Last, First\" <lf@example.net>", "\"Zoë \\\\ Backslash\" <zoe@example.com>",
+		"\"Ein Anzeigename mit Umlauten äöü, der länger ist als ein einzelnes encoded-word tragen kann\" <long@example.com>"}[r.Intn(5)]}},
 		{Kind: 2, Mode: "set", Values: []string{"Bob <bob@example.org>", "carol@example.com"}[:1+r.Intn(2)]}}
 	if r.Chance(40) {
 		spc.Addr = append(spc.Addr, AddrOp{Kind: 3, Mode: "set", Values: []string{"Ünïcode Cc <cc@example.com>"}})
